@@ -12,7 +12,7 @@ use std::sync::OnceLock;
 
 pub fn repo_dir() -> String {
     std::env::var("VERIF_REPO")
-        .unwrap_or_else(|_| concat!(env!("CARGO_MANIFEST_DIR"), "/../../repo").to_string())
+        .unwrap_or_else(|_| concat!(env!("CARGO_MANIFEST_DIR"), "/../../../repo").to_string())
 }
 
 /// Supported message numbers = features `msgNNNN` listed in the tree's Cargo.toml.
